@@ -198,6 +198,11 @@ fn empty_write_is_not_eof(vectored: bool) {
 /// `rem` bytes left of the current frame, then `q` queued frames (lengths 1 and 2), then the
 /// sender is either still there or gone.  One `poll_read` into a buffer of `cap` bytes.
 fn r_read<const REM: usize>(q: usize, cap: usize) {
+    r_read_x::<REM>(q, cap, false)
+}
+/// `uninit`: the caller's buffer is a `ReadBuf::uninit` (nothing initialised yet), as
+/// `read_buf` / `read_to_end` pass it.
+fn r_read_x<const REM: usize>(q: usize, cap: usize, uninit: bool) {
     let threshold: u32 = kani::any();
     let since: u32 = kani::any();
     kani::assume(threshold >= 1 && since < threshold);
@@ -216,10 +221,20 @@ fn r_read<const REM: usize>(q: usize, cap: usize) {
     if sender_gone {
         core::mem::drop(e.inbound_tx.take());
     }
-    let mut out = [0u8; 4];
-    let mut rb = ReadBuf::new(&mut out[..cap]);
+    let mut out_init = [0u8; 4];
+    let mut out_uninit = [core::mem::MaybeUninit::<u8>::uninit(); 4];
+    let mut rb = if uninit { ReadBuf::uninit(&mut out_uninit[..cap]) } else { ReadBuf::new(&mut out_init[..cap]) };
     let r = cx_poll(|cx| Pin::new(&mut s).poll_read(cx, &mut rb));
     let n = rb.filled().len();
+    let mut out = [0u8; 4];
+    {
+        let fl = rb.filled();
+        let mut i = 0;
+        while i < n && i < 4 {
+            out[i] = fl[i];
+            i += 1;
+        }
+    }
     // expected source of the bytes
     let (src, srclen): ([u8; 2], usize) = if REM > 0 {
         let mut t = [0u8; 2];
@@ -364,6 +379,42 @@ fn ack_accounting_partial_reads() {
     core::mem::forget(s);
     core::mem::forget(e);
 }
+/// The order inside the waking operation: when the blocked writer's waker fires, the reason for
+/// the wake-up (credit / closed flag) must already be visible - a writer re-polled at that very
+/// moment (another thread) would otherwise find nothing, register again and sleep for ever.
+fn wake_after_effect(close: bool) {
+    let (mut s, mut e) = mk_stream(0, 2, 2, 0, false);
+    let d: [u8; 1] = kani::any();
+    let w0 = cx_poll(|cx| Pin::new(&mut s).poll_write(cx, &d));
+    vassert!(w0.is_pending(), "P:C03 a write without credit did not block");
+    core::mem::forget(w0);
+    unsafe {
+        WAKE_OBS_CREDIT = alloc::sync::Arc::as_ptr(&s.psh_send_remaining);
+        WAKE_OBS_CLOSED = alloc::sync::Arc::as_ptr(&s.finish_sent);
+    }
+    let before = wakes();
+    if close {
+        e.data.disallow_write();
+    } else {
+        let n: u32 = kani::any();
+        kani::assume(n >= 1);
+        e.data.acknowledge(n);
+    }
+    vassert!(wakes() > before, "P:C12 lost wake-up - the blocked writer was not woken");
+    let (seen_credit, seen_closed) = unsafe { (WAKE_SEEN_CREDIT, WAKE_SEEN_CLOSED) };
+    if close {
+        vassert!(seen_closed, "P:C12 the writer is woken before the closed flag is visible: re-polled at that moment it sleeps for ever");
+    } else {
+        vassert!(seen_credit >= 1, "P:C12 the writer is woken before the returned credit is visible: re-polled at that moment it finds none, registers again and sleeps although credit arrives");
+    }
+    unsafe {
+        WAKE_OBS_CREDIT = core::ptr::null();
+        WAKE_OBS_CLOSED = core::ptr::null();
+    }
+    kani::cover!(true, "wake order evaluated");
+    core::mem::forget(s);
+    core::mem::forget(e);
+}
 fn credit_return() {
     let credit: u32 = kani::any();
     let n: u32 = kani::any();
@@ -490,6 +541,10 @@ h!(c02_r_rem0_q2_cap3, 8, r_read::<0>(2, 3));
 h!(c02_r_rem1_q1_cap3, 8, r_read::<1>(1, 3));
 h!(c02_r_rem2_q0_cap1, 8, r_read::<2>(0, 1));
 h!(c02_r_rem2_q2_cap3, 8, r_read::<2>(2, 3));
+h!(c02_r_uninit_rem0_q1_cap3, 8, r_read_x::<0>(1, 3, true));
+h!(c02_r_uninit_rem2_q0_cap1, 8, r_read_x::<2>(0, 1, true));
+h!(c12_wake_after_credit, 8, wake_after_effect(false));
+h!(c12_wake_after_close, 8, wake_after_effect(true));
 h!(c03_ack_accounting, 8, ack_accounting());
 h!(c03_ack_accounting_partial_reads, 8, ack_accounting_partial_reads());
 h!(c03_credit_return, 8, credit_return());
